@@ -200,10 +200,18 @@ func (c *Ctx) accountLayouts() {
 	}
 	if f := c.mustFn(R, "ton", "AccountID.UnmarshalJSON"); f != nil {
 		okW, okA := false, false
-		for _, st := range fieldStores(f, "Workchain") {
+		// a field is assigned by a store to it or by a store of a whole AccountID to the receiver (*id = a)
+		assigning := func(fld string) []*ssa.Store {
+			out := fieldStores(f, fld)
+			for _, st := range storesTo(f.Params[0]) {
+				out = append(out, st)
+			}
+			return out
+		}
+		for _, st := range assigning("Workchain") {
 			okW = derivesFrom(st.Val, callResult(modPath+"/ton.ParseAccountID"), false)
 		}
-		for _, st := range fieldStores(f, "Address") {
+		for _, st := range assigning("Address") {
 			okA = derivesFrom(st.Val, callResult(modPath+"/ton.ParseAccountID"), false)
 		}
 		c.check(okW && okA, R, "AccountID.UnmarshalJSON assigns workchain and hash from ParseAccountID", f.Pos(), "both fields from the parsed id", "AccountID.UnmarshalJSON no longer assigns both Workchain and Address from ParseAccountID's result")
@@ -211,7 +219,7 @@ func (c *Ctx) accountLayouts() {
 			okD := true
 			for _, sp := range successPoints(f, 0) {
 				dom := false
-				for _, st := range fieldStores(f, fld) {
+				for _, st := range assigning(fld) {
 					if st.Block().Dominates(sp.Block) {
 						dom = true
 					}
@@ -394,7 +402,14 @@ func (c *Ctx) crc16Table() {
 		// the loop-carried phi: init 0; update = (TABLE[((crc>>8)^uint16(b))&0xff] ^ (crc<<8)) [&0xffff]
 		var ops []string
 		initOK := false
-		allInstrs(f, func(_ *ssa.BasicBlock, in ssa.Instruction) {
+		// the per-byte step may be written in the loop or in an unexported helper both functions share
+		closure := c.helperClosure(f, 1, func(h *ssa.Function) bool { return plainHelper(h) == nil })
+		scan := func(fn func(b *ssa.BasicBlock, in ssa.Instruction)) {
+			for _, g := range closure {
+				allInstrs(g, fn)
+			}
+		}
+		scan(func(_ *ssa.BasicBlock, in ssa.Instruction) {
 			switch x := in.(type) {
 			case *ssa.Phi:
 				if x.Type().Underlying().String() == "uint16" {
@@ -421,12 +436,20 @@ func (c *Ctx) crc16Table() {
 				}
 			}
 		})
+		// (masking a uint16 with 0xffff is a no-op and may or may not be written)
+		var kept []string
+		for _, o := range ops {
+			if o != "andffff" {
+				kept = append(kept, o)
+			}
+		}
+		ops = kept
 		sort.Strings(ops)
 		got := strings.Join(ops, " ")
-		c.check(initOK && got == "andff andffff shl8 shr8 xor xor", R, name+" is the MSB-first table loop with init 0", f.Pos(), got, name+" is no longer crc = TABLE[((crc>>8)^b)&0xff] ^ (crc<<8) starting from 0: operators "+got+fmt.Sprintf(" init0=%v", initOK))
+		c.check(initOK && got == "andff shl8 shr8 xor xor", R, name+" is the MSB-first table loop with init 0", f.Pos(), got, name+" is no longer crc = TABLE[((crc>>8)^b)&0xff] ^ (crc<<8) starting from 0: operators "+got+fmt.Sprintf(" init0=%v", initOK))
 		// the table index derives from (crc>>8)^byte and the other xor operand is crc<<8
 		okIdx := false
-		allInstrs(f, func(_ *ssa.BasicBlock, in ssa.Instruction) {
+		scan(func(_ *ssa.BasicBlock, in ssa.Instruction) {
 			if ia, ok := in.(*ssa.IndexAddr); ok {
 				s := shape(ia.Index, 5)
 				okIdx = okIdx || (strings.Contains(s, ">>8") && strings.Contains(s, "^") && strings.Contains(s, "&255"))
